@@ -1856,6 +1856,37 @@ def rule_list(ctx):
                 r.violate(nx.name, "pred-check", "after an unlink attempt the new value of the predecessor link is not "
                           "tested for a deletion mark", ce.loc())
     r.instance("after each unlink attempt the predecessor's mark is tested (%d paths)" % tagc, tagc > 0)
+    # the mark Entry::delete sets is the mark the traversal tests for: `delete` ors a constant M into entry.next, the
+    # traversal asks `succ.tag() == c` (or `!= 0`) of the value it loads from entry.next
+    db = prog.bodies.get("ebr_impl::sync::list::Entry::delete")
+    marks = set()
+    if db is not None:
+        r.functions.add(db.name)
+        for p in ctx.ex.paths(db):
+            for e in p.events:
+                if e.kind == "call" and norm(e.target or "") == "ebr_impl::pointers::RawAtomic::fetch_or" and \
+                        "Entry.next" in show(e.args[0]):
+                    marks.add(const_of(e.args[1]))
+    tests = set()
+    for p in ctx.ex.paths(nx):
+        for e in p.events:
+            if e.kind == "cond" and not e.exp and isinstance(e.term, tuple) and e.term[0] == "bin" and e.term[1] in ("Eq", "Ne") \
+                    and const_of(e.term[3]) is not None:
+                tg = strip(e.term[2])
+                if isinstance(tg, tuple) and tg[0] == "call" and norm(tg[1]) == "ebr_impl::pointers::RawShared::tag" and \
+                        any(x[0] == "call" and norm(x[1]) == "ebr_impl::pointers::RawAtomic::load" and "Entry.next" in show(x[2][0])
+                            for x in subterms(tg[2][0])):
+                    tests.add((e.term[1], const_of(e.term[3])))
+    okm = len(marks) == 1 and None not in marks and bool(tests)
+    if okm:
+        M = next(iter(marks))
+        # (the entry is 8-aligned: the three low bits are the tag)
+        okm = 0 < M < 8 and all((c == M) if op == "Eq" and c != 0 else (M != 0) for (op, c) in tests)
+    r.instance("Entry::delete sets the mark the traversal tests for (mark %s, tests %s)" % (sorted(marks, key=str), sorted(tests)), okm)
+    if not okm:
+        r.violate(nx.name, "mark", "the deletion mark that Entry::delete sets (%s) is not the one the traversal looks for (%s): "
+                  "deleted participants are never unlinked (and never freed), or live ones are taken for deleted"
+                  % (sorted(marks, key=str), sorted(tests)), nx.loc(0))
     # insert
     ins = prog.body("ebr_impl::sync::list::List::<T, C>::insert")
     r.functions.add(ins.name)
